@@ -35,6 +35,27 @@ Proof.
   eapply eval_body_readv; eauto.
 Qed.
 
+(* the row norm over the VARIABLES of the system only: references to constant
+   cells belong to b of x = Ax + b *)
+Fixpoint fnorm (w : wbook) (ts : list term) : Q :=
+  match ts with
+  | [] => 0
+  | TCell a j :: ts' => (if is_formula w j then Qabs a else 0) + fnorm w ts'
+  | TSum _ _ :: ts' => fnorm w ts'
+  end.
+Definition row_bound_f (w : wbook) (q : Q) : Prop :=
+  forall c b ts, formula (spec w c) = Some (b, ts) -> fnorm w ts <= q.
+
+Lemma fnorm_le_tnorm : forall w ts, fnorm w ts <= tnorm ts.
+Proof.
+  intros w; induction ts as [|[a j|a r] ts IH]; cbn [fnorm tnorm]; try lra.
+  pose proof (Qabs_nonneg a). destruct (is_formula w j); lra.
+Qed.
+Lemma row_bound_weaken : forall w q, row_bound w q -> row_bound_f w q.
+Proof.
+  intros w q H c b ts F. pose proof (H c b ts F). pose proof (fnorm_le_tnorm w ts). lra.
+Qed.
+
 Section Cone.
 Variable w : wbook.
 Variable xs : nat -> Q.
@@ -43,7 +64,7 @@ Variable S : nat -> Prop.
 Variable s0 : state.          (* the state the pass starts from *)
 Hypothesis Hns : no_sum w.
 Hypothesis Hfp : fixed_point w xs.
-Hypothesis Hrow : row_bound w q.
+Hypothesis Hrow : row_bound_f w q.
 Hypothesis Hq1 : q <= 1.
 Hypothesis HE : 0 <= E.
 Hypothesis Hcl : closed w S.
@@ -92,33 +113,49 @@ Proof.
       * pose proof (H0const c Hc Fc Bc) as Hv. unfold dist. apply abs_le. lra.
 Qed.
 
+Lemma read_const : forall c st, S c -> cinv st -> built (getc st c) = true ->
+  is_formula w c = false -> num (readv st c) == xs c.
+Proof.
+  intros c st Hc I B Fc. unfold readv. pose proof (ci_built st I c) as Bc. rewrite B in Bc. symmetry in Bc.
+  destruct (wip (getc st c)) eqn:Wc.
+  - destruct (ci_wip st I c Wc) as [_ Fc']. congruence.
+  - destruct (memb c (computed (tr st))) eqn:Mc.
+    + destruct (ci_comp st I c Mc) as (_ & Fc' & _). congruence.
+    + rewrite (ci_same st I c Mc Wc). apply H0const; auto.
+Qed.
+
+Definition exact_const (j : nat) (v : val) : Prop := is_formula w j = false -> num v == xs j.
+
 Section Rec.
 Variable rec_c : nat -> state -> res (val * state).
 Hypothesis Hext : forall c st v st', rec_c c st = Ok (v, st') -> ext st st'.
 Hypothesis Hrec : forall j st v st', S j -> cinv st -> rec_c j st = Ok (v, st') ->
-  cinv st' /\ dist xs j v <= E /\ covered j st'.
+  cinv st' /\ (dist xs j v <= E /\ exact_const j v) /\ covered j st'.
 
 Lemma eval_terms_cone : forall ts acc st q' st',
   no_sum_terms ts -> (forall a j, In (TCell a j) ts -> S j) -> cinv st ->
   eval_terms w rec_c ts acc st = Ok (q', st') ->
-  cinv st' /\ Qabs (q' - (acc + tdot ts xs)) <= tnorm ts * E /\
+  cinv st' /\ Qabs (q' - (acc + tdot ts xs)) <= fnorm w ts * E /\
   (forall a j, In (TCell a j) ts -> covered j st').
 Proof.
   induction ts as [|[a j|a r] ts IH]; intros acc st q' st' Hn HS I Ev; cbn [eval_terms] in Ev.
   - inversion Ev; subst. split; [exact I|]. split; [|intros a j []].
-    cbn [tdot tnorm]. apply abs_le. lra.
+    cbn [tdot fnorm]. apply abs_le. lra.
   - destruct (rec_c j st) as [[v s1]|e] eqn:E1; [|discriminate].
-    destruct (Hrec _ _ _ _ (HS a j (or_introl eq_refl)) I E1) as (I1 & D1 & C1).
+    destruct (Hrec _ _ _ _ (HS a j (or_introl eq_refl)) I E1) as (I1 & (D1 & X1) & C1).
     assert (Hn' : no_sum_terms ts) by (intros t Ht; apply Hn; right; exact Ht).
     assert (HS' : forall a' j', In (TCell a' j') ts -> S j') by (intros a' j' Hin; apply (HS a' j'); right; exact Hin).
     pose proof (eval_terms_ext w rec_c Hext _ _ _ _ _ Ev) as X2.
     destruct (IH _ _ _ _ Hn' HS' I1 Ev) as (I2 & D2 & C2).
     split; [exact I2|]. split.
-    + cbn [tdot tnorm]. unfold dist in D1.
+    + cbn [tdot fnorm]. unfold dist in D1.
       pose proof (Qred_correct (acc + a * num v)) as Hr.
       set (r := Qred (acc + a * num v)) in *.
-      assert (H1 : Qabs (a * (num v - xs j)) <= Qabs a * E) by (apply mul_bound; exact D1).
-      apply abs_le in H1. apply abs_le in D2. apply abs_le. lra.
+      apply abs_le in D2. unfold exact_const in X1. destruct (is_formula w j).
+      * assert (H1 : Qabs (a * (num v - xs j)) <= Qabs a * E) by (apply mul_bound; exact D1).
+        apply abs_le in H1. apply abs_le. lra.
+      * assert (H1 : a * num v == a * xs j) by (rewrite (X1 eq_refl); reflexivity).
+        apply abs_le. lra.
     + intros a' j' [Heq|Hin].
       * inversion Heq; subst. eapply covered_ext; eauto.
       * apply (C2 a' j' Hin).
@@ -127,11 +164,12 @@ Qed.
 
 Lemma eval_body_cone : forall c st v st',
   S c -> cinv st -> eval_body w rec_c c st = Ok (v, st') ->
-  cinv st' /\ dist xs c v <= E /\ covered c st'.
+  cinv st' /\ (dist xs c v <= E /\ exact_const c v) /\ covered c st'.
 Proof.
   intros c st v st' Hc I Ev. unfold eval_body in Ev.
   destruct (built (getc st c)) eqn:B; cbn [negb] in Ev; [|discriminate].
-  pose proof (read_cone c st Hc I B) as Hread.
+  assert (Hread : dist xs c (readv st c) <= E /\ exact_const c (readv st c)).
+  { split; [apply read_cone; auto|]. intros Fc. apply read_const; auto. }
   destruct (needs_calc st c) eqn:N.
   - destruct (formula (spec w c)) as [[b ts]|] eqn:F.
     + assert (Fc : is_formula w c = true) by (unfold is_formula; rewrite F; reflexivity).
@@ -173,7 +211,7 @@ Proof.
       assert (D : dist xs c (Some qv) <= q * E).
       { unfold dist. cbn [num]. pose proof (Hfp _ _ _ F) as Hx. pose proof (Hrow _ _ _ F) as Hr.
         pose proof (Qred_correct b) as Hb. set (rb := Qred b) in *.
-        assert (Hm : tnorm ts * E <= q * E) by (apply Qmult_le_compat_r; auto).
+        assert (Hm : fnorm w ts * E <= q * E) by (apply Qmult_le_compat_r; auto).
         apply abs_le in D2. apply abs_le. lra. }
       split; [|split].
       * constructor.
@@ -202,7 +240,8 @@ Proof.
            destruct (Nat.eq_dec c c') as [<-|Hne].
            ++ rewrite F in F'. inversion F'; subst. apply (C2 a j Hin Fj).
            ++ rewrite memb_add_other in Hm by auto. eapply (ci_cov s2 I2); eauto.
-      * unfold readv. rewrite G3. cbn [wip value]. pose proof qE_le. lra.
+      * unfold readv. rewrite G3. cbn [wip value]. split; [pose proof qE_le; lra|].
+        intros Fc'. congruence.
       * intros _. left. rewrite T3. apply memb_add_same.
     + inversion Ev; subst. split; [exact I|]. split; [exact Hread|].
       intros Fc. unfold is_formula in Fc. rewrite F in Fc. discriminate.
@@ -213,7 +252,7 @@ End Rec.
 
 Lemma eval_cell_cone : forall fuel c st v st',
   S c -> cinv st -> eval_cell w fuel c st = Ok (v, st') ->
-  cinv st' /\ dist xs c v <= E /\ covered c st'.
+  cinv st' /\ (dist xs c v <= E /\ exact_const c v) /\ covered c st'.
 Proof.
   induction fuel as [|f IH]; intros c st v st' Hc I Ev; cbn [eval_cell] in Ev; [discriminate|].
   eapply eval_body_cone; eauto. apply eval_cell_ext.
@@ -237,7 +276,7 @@ Definition cone_within (w : wbook) (xs : nat -> Q) (t : nat) (E : Q) (st : state
             dist xs c (value (getc st c)) <= E.
 
 Lemma cone_pass : forall w xs q E,
-  no_sum w -> fixed_point w xs -> row_bound w q -> q <= 1 -> 0 <= E ->
+  no_sum w -> fixed_point w xs -> row_bound_f w q -> q <= 1 -> 0 <= E ->
   forall t s v s',
   cone_ready w xs t s -> cone_within w xs t E s ->
   evaluate_pass w t (inc_iteration s) = Ok (v, s') ->
